@@ -208,8 +208,12 @@ class LocalDirectoryContext(Context):
                         lines.append(line)
                 if not found:
                     lines.append(f'{name} {annotation}\n')
-            with open(path, 'w') as fh:
+            # NOTE: Write to a temporary file and rename it over the old one so that
+            # an interrupted write cannot lose the annotations of other models
+            tmp_path = path.with_suffix('.tmp')
+            with open(tmp_path, 'w') as fh:
                 fh.writelines(lines)
+            tmp_path.replace(path)
 
     def retrieve_annotation(self, name: str) -> str:
         path = self._annotations_path
